@@ -51,9 +51,10 @@ LCommitStore(g) ==
   /\ pend[g].st = "checked"
   /\ LET o == pend[g].o IN
        /\ blobs' = [blobs EXCEPT ![o.r] = @ \cup {o.dd}]
+       /\ ups' = [ups EXCEPT ![o.r][o.u].done = TRUE]
        /\ res' = OkDesc(o.dd, None)
        /\ pend' = [pend EXCEPT ![g] = [st |-> "done", o |-> o, res |-> res']]
-  /\ l' = l /\ UNCHANGED <<imm, mans, tags, ups, touched, tvars, cwvars>>
+  /\ l' = l /\ UNCHANGED <<imm, mans, tags, touched, tvars, cwvars>>
 LRet ==
   /\ More /\ Ev.e = "ret"
   /\ \/ /\ Ev.op = "skip" /\ pend[Ev.g].st = "called"     \* the driver had no handle to call
